@@ -212,6 +212,103 @@ def random_key(rng):
     return [rng.choice([0, 1, 65, 97, 127, 128, 200, 255, rng.randrange(256)]) for _ in range(n)]
 
 
+def alloc_cap(n):
+    n += n & 1
+    s = 1 << (n.bit_length() - 1) if n else 1
+    return s * 2 if s < n else s
+
+
+def big_key(i):
+    return str(((i + 1) * 48271) % 2147483647)
+
+
+def big_expected(kind, n):
+    """Reference for `htbig`: the insertion-ordered map on n generated keys (plain Python, linear)."""
+    def fnv(entries):
+        import zlib
+        return zlib.adler32(b"".join(k.encode() + b"\0" + str(v).encode() + b"\1" for k, v in entries))
+    val = (lambda i: i + 1) if kind == "A" else (lambda i: 0)
+    ent = [(big_key(i), val(i)) for i in range(n)]
+    assert len(set(k for k, _ in ent)) == n
+    cap = 0
+    size = 0
+    for _ in range(n):                      # growth by doubling when full
+        if size == cap:
+            cap = alloc_cap((1 if cap == 0 else cap) * 2)
+        size += 1
+    recs = []
+    rec = lambda size, cap, e, absent: "%d %d %d %d %d %d %d %d" % (size, cap, len(e), len(e), absent, len(e), len(e), fnv(e))
+    recs.append(rec(n, cap, ent, 0))
+    cap = alloc_cap(n)                       # copyTable: allocate(src.Size())
+    recs.append(rec(n, cap, ent, 0))
+    ent = sorted(ent, key=lambda e: e[0])    # ASCII keys: IsLess order = bytewise, proper prefix first
+    recs.append(rec(n, cap, ent, 0))
+    gone = set(big_key(i) for i in range(0, n, 2))
+    live = [e for e in ent if e[0] not in gone]
+    recs.append(rec(n, cap, live, len(gone)))
+    if not live:
+        size, cap = 0, 0                     # Compress() of a table without live items is Reset()
+    elif len(live) < n:
+        size, cap = len(live), alloc_cap(len(live))
+    else:
+        size = n
+    recs.append(rec(size, cap, live, len(gone)))
+    # Resize(n/4): slots from n/4 on are dropped (after Compress there are no tombstones), then compaction
+    q = n // 4
+    if q == 0:
+        return "|".join(recs + ["0 0 0 0 %d 0 0 %d" % (n, fnv([]))])
+    kept = live[:q]
+    recs.append(rec(len(kept), alloc_cap(q), kept, n - len(kept)))
+    return "|".join(recs)
+
+
+def sparse_lines(ctx, zero_keys):
+    """Sparse tables: capacity >> size (Reserve / Expect 32..256, 1..8 live items).  `zero_keys` hash into
+    bucket 0 at every capacity up to 256 - the bucket where Sort chains the removed slots."""
+    rng = ctx.rng
+    lines = []
+    few = [[97], [98], [99], [97, 97], [], [100]]
+    for kind in ("A", "L", "B"):
+        for cap in (32, 64, 128, 256):
+            for z in zero_keys[:3]:
+                for a, b in (([97], [98]), ([98], z), (z, [99])):
+                    # remove -> sort -> clear -> re-insert -> remove -> lookup, around a bucket-0 key
+                    lines.append("htrun %s V/%d;I/%s/1;I/%s/2;R/%s;S/1;K;I/%s/3;I/%s/4;R/%s;L/%s;L/%s" % (
+                        kind, cap, ks(a), ks(b), ks(a), ks([101]), ks(z), ks([101]), ks(z), ks([101])))
+                    lines.append("htrun %s E/%d;I/%s/1;I/%s/2;I/%s/3;D/1;S/0;K;I/%s/4;I/%s/5;I/%s/6;D/0;L/%s;L/%s;C;L/%s" % (
+                        kind, cap, ks(a), ks(b), ks(z), ks(b), ks(z), ks(a), ks(z), ks(a), ks(z)))
+        for _ in range(220 if not ctx.thorough else 4000):
+            keys = few + zero_keys[:4]
+            g = Gen(rng, keys, kind)
+            cap = rng.choice([32, 64, 128, 256])
+            ops = ["%s/%d" % (rng.choice("VE"), cap)]
+            for _ in range(rng.randrange(4, 30)):
+                r = rng.random()
+                if r < 0.30:
+                    ops.append("I/%s/%d" % (ks(g.key()), g.val()))
+                elif r < 0.48:
+                    ops.append("R/%s" % ks(g.key()))
+                elif r < 0.56:
+                    ops.append("D/%d" % rng.randrange(0, 8))
+                elif r < 0.66:
+                    ops.append("S/%d" % rng.randrange(2))
+                elif r < 0.76:
+                    ops.append("K")
+                elif r < 0.88:
+                    ops.append("L/%s" % ks(g.key()))
+                else:
+                    ops.append(g.op(0.2))          # any other operation, on a sparse table
+            lines.append("htrun %s %s" % (kind, ";".join(ops)))
+    return lines
+
+
+def bucket_zero_keys():
+    """Keys of length 1-2 whose hash has the low 8 bits clear: bucket 0 at every capacity up to 256."""
+    out = [list(t) for n in (1, 2) for t in itertools.product(range(256), repeat=n) if qhash(list(t)) & 255 == 0]
+    assert len(out) >= 4, len(out)
+    return out[:1] + out[1::37][:7]
+
+
 def gen_lines(ctx):
     rng = ctx.rng
     lines = []
@@ -247,6 +344,7 @@ def gen_lines(ctx):
                           "PG/0", "PG/%d" % (n - 1), "PB/%d;GC/99;GC/100" % (n - 1)]
             for t in tails:
                 lines.append("htrun %s %s;%s" % (kind, fill, t))
+    lines += sparse_lines(ctx, bucket_zero_keys())
     n_exh = len(lines) - n_corpus
     coll = colliding_alphabet()
     per = 450 if not ctx.thorough else 9000
@@ -325,6 +423,15 @@ def run(ctx):
         return
     rng = ctx.rng
 
+    # ---- big tables (more than 2^16 buckets: find and generateHash must agree on the bucket at every
+    # capacity): started now, in the background, collected after the other streams
+    from concurrent.futures import ThreadPoolExecutor
+    sizes = [("A", 66000)] if not ctx.thorough else [
+        ("A", 70000), ("L", 70000), ("A", 131071), ("A", 131072), ("A", 131073), ("L", 131073), ("A", 262143), ("A", 262145)]
+    blines = ["htbig %s %d" % kn for kn in sizes]
+    bex = ThreadPoolExecutor(max_workers=4)
+    bfut = [bex.submit(core.run_lines, exe, [l]) for l in blines]
+
     # ---- recorded finding: allocation size wraps in 32-bit SizeT for requests of >= 2^27..2^30 slots
     wo, wf = core.run_lines(exe, ["htwrap x"])
     if wo[0].startswith("FAULT"):
@@ -396,6 +503,21 @@ def run(ctx):
             # otherwise only capacity / compaction timing differs: that is a layout disagreement, already
             # recorded by ctx.correspond above, not a failure of the ordered-map property
     ctx.count("ordered-map oracle (Lean Slots spec + std::vector reference) on C++ results, steps", n_steps, len(set(lines)))
+
+    # ---- big tables: collect the runs started at the beginning
+    bres = [f.result() for f in bfut]
+    bexp = [big_expected(*kn) for kn in sizes]
+    bex.shutdown()
+    for l, (o, fl), e in zip(blines, bres, bexp):
+        for _, kind_, err in fl:
+            ctx.fail("fault:big:" + kind_, "sanitizer fault in a big hash table: " + l, {"line": l, "stderr": err})
+        if o and not o[0].startswith("FAULT") and o[0] != e:
+            a, b = o[0].split("|"), e.split("|")
+            k = next((j for j in range(min(len(a), len(b))) if a[j] != b[j]), min(len(a), len(b)))
+            ctx.fail("big-table", "%s: phase %d (0 insert, 1 copy, 2 sort, 3 remove half, 4 compress, 5 resize) gives "
+                     "'size cap actual found absent idx val ordhash' = %s, the insertion-ordered map %s" % (l, k, a[k] if k < len(a) else "-", b[k] if k < len(b) else "-"),
+                     {"line": l, "impl": o[0], "expected": e})
+    ctx.count("big tables (every inserted key looked up after every phase; plain Python reference)", len(blines), len(blines))
 
     # ---- public-API audit (by overload): anything the op language does not call is put into the evidence
     from checks import _c13_api
